@@ -720,7 +720,7 @@ def run(ctx: Ctx) -> Outcome:
                                         {"kind": "spec", "invariant": inv, "trace": res.counterexample[:60]}))
     loaders = ["sdl", "json"]
     cfgs = CFGS_QUICK if ctx.quick else CFGS_THOROUGH
-    n = 12 if ctx.quick else 16
+    n = 9 if ctx.quick else 12
     items = []
     for s, view in enumerate(views):
         for li, loader in enumerate(loaders):
@@ -741,7 +741,7 @@ def run(ctx: Ctx) -> Outcome:
         out.violations.append(Violation("C20:spec:" + inv, "design invariant %s violated in GraphQLHistory.tla" % inv,
                                         {"kind": "spec", "invariant": inv, "trace": hres.counterexample[:60]}))
     t2 = time.time()
-    hitems = [{"h": h, "case": c, "loader": "sdl" if h % 2 == 0 else "json", "n": 8 if ctx.quick else 10,
+    hitems = [{"h": h, "case": c, "loader": "sdl" if h % 2 == 0 else "json", "n": 6 if ctx.quick else 10,
                "seed": (ctx.seed * 7919 + h * 31) % (2 ** 31)} for h, c in enumerate(hcases)]
     hresults = common.pmap(work_history, hitems)
     t_hist = time.time() - t2
